@@ -4,7 +4,8 @@ SEED=${1:?seed}; CHK=${2:?check}; shift 2
 WT=$(mktemp -d /tmp/seedrun-$SEED.XXXX); rmdir $WT
 git -C /repo worktree add -q --detach $WT HEAD || exit 2
 trap 'git -C /repo worktree remove --force $WT 2>/dev/null' EXIT
-P=/verif/seeded/$SEED/patch.diff; [ -f /verif/seeded/$SEED/patch.rebased.diff ] && P=/verif/seeded/$SEED/patch.rebased.diff
+ROOT="$(cd "$(dirname "$0")/.." && pwd)"
+P=$ROOT/seeded/$SEED/patch.diff; [ -f $ROOT/seeded/$SEED/patch.rebased.diff ] && P=$ROOT/seeded/$SEED/patch.rebased.diff
 git -C $WT apply $P 2>/dev/null || git -C $WT apply -3 $P || exit 2
-cd /verif && VERIF_REPO=$WT bin/check $CHK --no-evidence "$@"
+cd $ROOT && VERIF_REPO=$WT bin/check $CHK --no-evidence "$@"
 echo "exit=$?"
